@@ -132,3 +132,54 @@ def scan_text(text: str) -> bool:
         if len(lines) >= 2:
             sym.reach("two-lines")
         return True
+
+
+def _cr_only_in_crlf(text):
+    for i, ch in enumerate(text):
+        if ch == "\r" and not (i + 1 < len(text) and text[i + 1] == "\n"):
+            return False
+    return True
+
+
+def file_vs_string(text: str) -> bool:
+    """
+    pre: len(text) <= sym.param("maxlen", 4)
+    pre: _cr_only_in_crlf(text)
+    post: _
+    """
+    # C16: loading the document from a file (text mode, universal newlines) instead of a string feeds the matcher the same
+    # lines up to the CRLF -> LF translation of the line end (which the line-level relation shows to be neutral)
+    import gherkin.token_scanner as ts
+    from kit import pyio
+    with sym.scanner_env(False):
+        s1 = TokenScanner(text)
+        a = []
+        while True:
+            t = s1.read()
+            if t.eof():
+                break
+            a.append(t.line._line_text)
+    opened = []
+
+    def fake_open(path, encoding=None, newline=None):
+        opened.append((path, encoding, newline))
+        return pyio.StringIO(text, newline=None) if newline is None else pyio.StringIO(text, newline=newline)
+
+    with sym.scanner_env(True):
+        ts.open = fake_open
+        try:
+            s2 = TokenScanner("some/path.feature")
+        finally:
+            del ts.open
+        b = []
+        while True:
+            t = s2.read()
+            if t.eof():
+                break
+            b.append(t.line._line_text)
+    if len(a) != len(b):
+        return False
+    for x, y in zip(a, b):
+        if x.replace("\r\n", "\n") != y:
+            return False
+    return opened == [("some/path.feature", "utf8", None)]
